@@ -188,7 +188,9 @@ def explore(ctx, scale=1.0):
     import itertools
     alpha = ["MAP", "LAYER", "CLASS", "STYLE", "SYMBOL", "symbol", "GRID", "grid", "END", "NAME", "TYPE", "FEATURE", "POINTS", "IMAGEMODE", "OUTPUTFORMAT",
              "PROJECTION", "METADATA", "PATTERN", "CONFIG", "INCLUDE", "CLASSITEM", "foo", "circle", '"x"', "1", "2.5", "[a]", "(", "/re/", "AUTO", "#c\n", "/*c*/", "{", ","]
-    seqs = [(a,) for a in alpha] + list(itertools.product(alpha, repeat=2))
+    # the degenerate inputs first: nothing at all, blanks, a byte-order mark, a lone comment opener, a NUL
+    seqs = [("",), (" ",), ("\n",), ("\ufeff",), ("\ufeff\n",), ("\ufeffMAP END",), ("#",), ("/*",), ("\x00",), ("\r",), ("\t\n \r\n",)]
+    seqs += [(a,) for a in alpha] + list(itertools.product(alpha, repeat=2))
     triples = list(itertools.product(alpha, repeat=3))
     seqs += triples if ctx.thorough else rng.sample(triples, int(4000 * scale))
     if ctx.thorough:
